@@ -26,9 +26,11 @@ import (
 	"unicode/utf8"
 
 	"github.com/valyala/bytebufferpool"
+	"golang.org/x/text/transform"
 
 	protocol "github.com/hujm2023/go-sms-protocol"
 	"github.com/hujm2023/go-sms-protocol/datacoding"
+	"github.com/hujm2023/go-sms-protocol/datacoding/gsm7encoding"
 )
 
 func ok(t *testing.T, id string, n int, bound string) {
@@ -743,4 +745,101 @@ func TestValidator_BUILD(t *testing.T) {
 	}
 	n += 2
 	ok(t, "C09-BUILD", n, fmt.Sprintf("every non-empty subset of the CMPP codings {0,8,9,15} and of the SMPP codings {0,1,3,8,99} x origins x %d contents x 3 presentations (given order, shuffled, shuffled+duplicated under a random GOMAXPROCS 1..16)", len(contents)))
+}
+
+// ---------------------------------------------------------------------------------------------------------------------
+// BOUNDED stand-in for the functional agreement of the two stream transformers with the function pairs (C08: "all entry
+// points agree with one another"). The transformers repeat the loops of Encode/Pack and Unpack/Decode textually; the
+// verifier proves the function pairs exactly and, for the transformers, only safety, bounds and termination.
+func TestValidator_AGREE(t *testing.T) {
+	quick := os.Getenv("VERIF_VALIDATOR_QUICK") != ""
+	n := 0
+	alphabet := []rune("@£$¥èéùìòÇ\nØø\rÅåΔ_ΦΓΛΩΠΨΣΘΞÆæßÉ !\"#¤%&'()*+,-./0123456789:;<=>?¡ABCXYZÄÖÑÜ§¿abcxyzäöñüà^{}\\[~]|€\f")
+	check := func(s string) {
+		n++
+		septets, err := gsm7encoding.Encode(s)
+		encP := gsm7encoding.GSM7(true).NewEncoder()
+		encU := gsm7encoding.GSM7(false).NewEncoder()
+		tp, _, errP := transform.Bytes(encP, []byte(s))
+		tu, _, errU := transform.Bytes(encU, []byte(s))
+		if (err == nil) != (errP == nil) || (err == nil) != (errU == nil) {
+			t.Logf("VALIDATOR-FAIL C08-AGREE input=%+q: Encode err=%v, packed transformer err=%v, unpacked transformer err=%v", s, err, errP, errU)
+			t.FailNow()
+		}
+		if err != nil {
+			return
+		}
+		if !bytes.Equal(tu, septets) {
+			t.Logf("VALIDATOR-FAIL C08-AGREE input=%+q: unpacked transformer %x, Encode %x", s, tu, septets)
+			t.FailNow()
+		}
+		packed := gsm7encoding.Pack(septets)
+		if len(s) > 0 && !bytes.Equal(tp, packed) {
+			t.Logf("VALIDATOR-FAIL C08-AGREE input=%+q: packed transformer %x, Pack(Encode) %x", s, tp, packed)
+			t.FailNow()
+		}
+		// decoding side: transformer decoders agree with Decode / Decode(Unpack)
+		d1, e1 := gsm7encoding.Decode(septets)
+		d2, _, e2 := transform.Bytes(gsm7encoding.GSM7(false).NewDecoder(), septets)
+		if (e1 == nil) != (e2 == nil) || (e1 == nil && len(septets) > 0 && !bytes.Equal(d1, d2)) {
+			t.Logf("VALIDATOR-FAIL C08-AGREE septets=%x: Decode %q/%v, unpacked transformer %q/%v", septets, d1, e1, d2, e2)
+			t.FailNow()
+		}
+		if len(packed) > 0 {
+			d3, e3 := gsm7encoding.Decode(gsm7encoding.Unpack(packed))
+			d4, _, e4 := transform.Bytes(gsm7encoding.GSM7(true).NewDecoder(), packed)
+			if (e3 == nil) != (e4 == nil) || (e3 == nil && !bytes.Equal(d3, d4)) {
+				t.Logf("VALIDATOR-FAIL C08-AGREE packed=%x: Decode(Unpack) %q/%v, packed transformer %q/%v", packed, d3, e3, d4, e4)
+				t.FailNow()
+			}
+		}
+	}
+	// every string of length <= 2 over the alphabet (+ one character outside it), then structured and random longer ones
+	ext := append(append([]rune(nil), alphabet...), '你')
+	check("")
+	for _, a := range ext {
+		check(string(a))
+		for _, b := range ext {
+			check(string(a) + string(b))
+		}
+	}
+	branch := []rune("@\r1a[€ ")
+	maxLen := 9
+	if quick {
+		maxLen = 8
+	}
+	var rec func(prefix []rune, k int)
+	rec = func(prefix []rune, k int) {
+		if k == 0 {
+			check(string(prefix))
+			return
+		}
+		for _, r := range branch {
+			rec(append(prefix, r), k-1)
+		}
+	}
+	for l := 3; l <= maxLen && l <= 6; l++ {
+		rec(nil, l)
+	}
+	rnd := rand.New(rand.NewSource(11))
+	rounds := 60000
+	if quick {
+		rounds = 15000
+	}
+	for it := 0; it < rounds; it++ {
+		l := rnd.Intn(40)
+		if it%50 == 0 {
+			l = 150 + rnd.Intn(20)
+		}
+		rs := make([]rune, l)
+		for i := range rs {
+			if rnd.Intn(4) == 0 {
+				rs[i] = branch[rnd.Intn(len(branch))]
+			} else {
+				rs[i] = alphabet[rnd.Intn(len(alphabet))]
+			}
+		}
+		check(string(rs))
+	}
+	ok(t, "C08-AGREE", n, "all strings of length <= 2 over the GSM alphabet plus one foreign character; all strings of length 3..6 over the 7 branch-driving characters {@,CR,1,a,[,euro,space}; random strings up to 40 (some 150..170) characters")
 }
